@@ -36,6 +36,9 @@ use protocol::Protocol;
 #[cfg(feature = "s3")]
 pub mod s3;
 
+#[cfg(feature = "verif_hooks")]
+pub mod hook;
+
 pub use self::error::{Error, ErrorKind};
 use self::record::{Call, Recording, Verb};
 
@@ -132,6 +135,17 @@ impl Transport {
             }
         };
         Ok(Transport::from_protocol(protocol))
+    }
+
+    /// Wrap this transport so that `interceptor` is consulted around every storage
+    /// operation on it and on every transport derived from it. Verification builds only.
+    #[cfg(feature = "verif_hooks")]
+    #[must_use]
+    pub fn with_interceptor(self, interceptor: Arc<dyn hook::Interceptor>) -> Transport {
+        Transport {
+            protocol: Arc::new(hook::Hooked::new(self.protocol, interceptor)),
+            ..self
+        }
     }
 
     /// Start recording operations from this and any derived transports.
